@@ -207,28 +207,65 @@ pub fn part_second_lifecycle(tier: Tier) -> Part {
             })
         };
         let mut outcomes: std::collections::BTreeSet<String> = Default::default();
+        // what one run of a history shows: (signature, detail) pairs + the shape of its last lifecycle
+        let judge = |name: &str, at: usize, d: &Driven| -> (Vec<(String, String)>, String) {
+            let mut v: Vec<(String, String)> = vec![];
+            if let Some(e) = &d.error {
+                v.push(("C12:second-lifecycle:connection-broke".to_string(), format!("[{}] {name}: {e}", p.name())));
+                return (v, String::new());
+            }
+            for f in &d.findings {
+                v.push((f.sig.clone(), f.detail.clone()));
+            }
+            let second: Vec<Vec<String>> = d.obs[at.min(d.obs.len())..].iter().map(wire_shape).collect();
+            if second != fresh_shape {
+                let k = (0..second.len().min(fresh_shape.len())).find(|i| second[*i] != fresh_shape[*i]).unwrap_or(0);
+                v.push((format!("C12:second-lifecycle:differs-from-a-fresh-one:{}", life[k.min(life.len() - 1)].label()), format!("[{}] {name}: while `{}` of the second lifecycle was handled the adapter wrote {:?}; on a fresh connection {:?}", p.name(), life[k.min(life.len() - 1)].label(), second.get(k), fresh_shape.get(k))));
+            }
+            (v, format!("{second:?}"))
+        };
+        let known: std::collections::BTreeSet<String> = crate::common::load_known_findings().into_iter().filter(|k| k.kind == "finding").map(|k| k.signature).collect();
+        let mut outcomes: std::collections::BTreeSet<String> = Default::default();
+        let mut unreproducible: Vec<String> = vec![];
         for (name, path, at, d) in results {
             let Some(d) = d else { continue };
             let replay = json!({"engine":"dap","prop":"C12","exe":cx.p.built.exe,"lines":cx.lines,"fns":cx.fns,"insns":cx.insns,"path":path,"history":path.iter().map(|a| a.label()).collect::<Vec<_>>()});
             part.states += 1;
             part.transitions += path.len() as u64;
             part.evaluations += 1;
-            if let Some(e) = &d.error {
-                part.violate("C12:second-lifecycle:connection-broke", format!("[{}] {name}: {e}", p.name()), replay);
+            let (found, shape) = judge(&name, at, &d);
+            outcomes.insert(shape);
+            if found.is_empty() {
+                part.distinct_nontrivial += 1;
                 continue;
             }
-            for f in &d.findings {
-                part.violate(f.sig.clone(), f.detail.clone(), replay.clone());
+            // a finding counts only if a fresh connection shows it again (known ones are matched later)
+            let mut again: Option<Vec<(String, String)>> = None;
+            for (sig, detail) in found {
+                if known.contains(&sig) {
+                    part.violate(sig, detail, replay.clone());
+                    continue;
+                }
+                if again.is_none() {
+                    let mut seen = vec![];
+                    for _ in 0..2 {
+                        let d2 = drive(&cx, &cfg, &path, &*oracle);
+                        part.evaluations += 1;
+                        seen.extend(judge(&name, at, &d2).0);
+                    }
+                    again = Some(seen);
+                }
+                if again.as_ref().unwrap().iter().any(|(s2, _)| *s2 == sig) {
+                    part.violate(sig, detail, replay.clone());
+                } else {
+                    unreproducible.push(format!("{sig}: {}", detail.chars().take(300).collect::<String>()));
+                }
             }
-            // a restart / launch in between starts a lifecycle of its own: then the last four requests are a third one; still a fresh lifecycle
-            let second: Vec<Vec<String>> = d.obs[at..].iter().map(wire_shape).collect();
-            outcomes.insert(format!("{second:?}"));
-            if second != fresh_shape {
-                let k = (0..second.len().min(fresh_shape.len())).find(|i| second[*i] != fresh_shape[*i]).unwrap_or(0);
-                part.violate(format!("C12:second-lifecycle:differs-from-a-fresh-one:{}", life[k.min(life.len() - 1)].label()), format!("[{}] {name}: while `{}` of the second lifecycle was handled the adapter wrote {:?}; on a fresh connection {:?}", p.name(), life[k.min(life.len() - 1)].label(), second.get(k), fresh_shape.get(k)), replay.clone());
-            } else {
-                part.distinct_nontrivial += 1;
-            }
+        }
+        if !unreproducible.is_empty() {
+            part.exhaustive = false;
+            part.caps_hit.push(format!("{} observation(s) made once could not be reproduced on fresh connections and are not verdicts", unreproducible.len()));
+            part.extra.insert("unreproducible_observations".into(), json!(unreproducible.iter().take(5).collect::<Vec<_>>()));
         }
         part.distinct_outcomes += outcomes.len() as u64;
         if capped.load(std::sync::atomic::Ordering::Relaxed) {
